@@ -168,6 +168,7 @@ func runC10(ctx *h.Ctx) int {
 			}
 		}
 	})
+	rejectGuard(ctx, 0.05)
 	return ctx.Finish(
 		"straight-line scripts (commands with 0..3 arguments made of identifiers incl. multi-byte, decimal/hex/negative numbers, operator characters, keywords, nested parentheses with commas, inline text and moves(); labels with and without scope; commands whose argument is global/local): the script's emitted lines must equal, in order, one line per statement = name + arguments (token sequence compared, spacing ignored, inline text/moves replaced by the hoisting model's label) followed by the terminator. Second workload: the same argument shapes inside structured control flow, checked on every executed path by VM-vs-reference trace equality with full command texts. distinct = distinct argument-shape signature",
 		ctx.N(1000, 10000),
